@@ -1,5 +1,6 @@
 import PGM.Model.Domain
 import PGM.Model.Index
+import PGM.Model.Scalar
 /-!
 # Datasets (`src/mbi/dataset.py`)
 
@@ -8,7 +9,7 @@ domain order), an optional weight per row, and a domain.  `datavector` is
 `np.histogramdd(values, bins=[range(n+1) …], weights)`: along each attribute with size `n` the bin
 edges are `0,1,…,n`, so a value `v` falls in bin `v` when `0 ≤ v < n`, **in bin `n-1` when `v = n`**
 (numpy closes the last bin on the right) and the whole record is dropped otherwise.
-The scalar type `α` only needs `0` and `+`.
+The scalar type `α` is any `Scalar`; only `zero`, `one` and `add` are used.
 -/
 namespace PGM
 
@@ -63,16 +64,16 @@ def binOf : List Nat → List Int → Option (List Nat)
   | _, _ => none
 
 /-- weight of record number `i` -/
-def weightAt [OfNat α 1] (D : Dataset α) (i : Nat) (dflt : α) : α :=
+def weightAt [Scalar α] (D : Dataset α) (i : Nat) : α :=
   match D.weights with
-  | none => 1
-  | some w => w.getD i dflt
+  | none => Scalar.one
+  | some w => w.getD i Scalar.zero
 
 /-- `datavector()`: total weight of the records falling in each cell, cells in row-major order -/
-def datavector [OfNat α 0] [OfNat α 1] [Add α] (D : Dataset α) : List α :=
-  let binned := D.rows.zipIdx.map (fun (r, i) => (binOf D.dom.shape r, D.weightAt i 0))
+def datavector [Scalar α] (D : Dataset α) : List α :=
+  let binned := D.rows.zipIdx.map (fun (r, i) => (binOf D.dom.shape r, D.weightAt i))
   (cells D.dom.shape).map (fun c =>
-    binned.foldl (fun acc (b, w) => if b = some c then acc + w else acc) 0)
+    binned.foldl (fun acc (b, w) => if b = some c then Scalar.add acc w else acc) Scalar.zero)
 
 end Dataset
 end PGM
